@@ -12,7 +12,7 @@ from fractions import Fraction
 import math
 import numpy as np
 from . import common
-from .common import make_material, make_rodded, set_int_params, set_temps
+from .common import make_material, make_rodded, set_int_params, set_temps, patched
 from pvc import core, loopcut, normal
 from pvc.core import Sym
 
@@ -270,11 +270,70 @@ loop_exit.cname = 'PinModel conductivity iterations/loop-exit'
 loop_exit.run_kw = dict(max_paths=400, pool_size=8, check_div=False)
 
 
+def chain(S, cfg):
+    """the real PinModel.calculate_temperatures with recording stages: each stage is handed the temperature the previous
+    one returned - the clad solve starts from the pin's coolant temperature, the gap solve from the clad INNER wall, the
+    fuel solve from the fuel SURFACE (which differs from the clad inner wall whenever there is a gap) - and the six
+    columns are coolant, clad outer / mid / inner wall, fuel surface, fuel centre, in that order."""
+    pm = _pin(S, gap=True, tdep=False)
+    npin = 2
+    q = S.vec('q_lin', npin, 'pos', 1e3, 4e4)
+    Tc = S.vec('T_cool', npin, 'pos', 600.0, 900.0)
+    h = S.pos('htc', 5e4, 2e5)
+    dz = S.pos('dz', 0.001, 0.02)
+    obj = object if S.mode == 'sym' else float
+    clad_out = np.array([[S.pos(f'T_clad[{p},{j}]', 600.0, 1000.0) for j in range(3)] for p in range(npin)], dtype=obj)
+    surf_out = np.array([S.pos(f'T_fuel_surface[{p}]', 600.0, 1200.0) for p in range(npin)], dtype=obj)
+    centre_out = np.array([S.pos(f'T_fuel_centre[{p}]', 600.0, 2000.0) for p in range(npin)], dtype=obj)
+    rec = {}
+
+    def clad(q_, dz_, T_cool, htc, atol=1e-6, ilim=20):
+        rec['clad'] = (q_, T_cool, htc)
+        return clad_out
+
+    def surf(q_, dz_, T_clad_in, atol=1e-6, ilim=20):
+        rec['surf'] = (q_, np.array(T_clad_in, dtype=obj))
+        return surf_out
+
+    def fuel(q_dens, T_surface, atol=1e-6, ilim=20):
+        rec['fuel'] = (q_dens, np.array(T_surface, dtype=obj))
+        return centre_out
+    if S.mode == 'sym':
+        real_zeros = np.zeros
+
+        class _NP:
+            def __getattr__(self, k):
+                return getattr(np, k)
+
+            def zeros(self, shape, **k):
+                return real_zeros(shape).astype(object)
+        from dassh import pin_model as pmod
+        extra = [(pmod, 'np', _NP())]
+    else:
+        extra = []
+    with patched((pm, 'calc_clad_temps', clad), (pm, 'calc_fuel_surf_temp', surf), (pm, 'calc_fuel_temps', fuel), *extra):
+        t = pm.calculate_temperatures(q, Tc, h, dz, atol=0)
+    for p in range(npin):
+        S.eq(f'chain.clad_from_coolant[{p}]', rec['clad'][1][p], Tc[p])
+        S.eq(f'chain.gap_from_clad_inner_wall[{p}]', rec['surf'][1][p], clad_out[p, 2])
+        S.eq(f'chain.fuel_from_fuel_surface[{p}]', rec['fuel'][1][p], surf_out[p])
+        S.eq(f'chain.power_per_step[{p}]', rec['surf'][0][p], q[p] * dz)
+        S.eq(f'chain.power_density[{p}]', rec['fuel'][0][p] * pm.fuel['area'], q[p])
+        want = [Tc[p], clad_out[p, 0], clad_out[p, 1], clad_out[p, 2], surf_out[p], centre_out[p]]
+        for j in range(6):
+            S.eq(f'chain.column[{p},{j}]', t[p, j], want[j])
+    S.eq('canary.chain_fuel_from_clad_wall', rec['fuel'][1][0], clad_out[0, 2], canary=True)
+
+
+chain.cname = 'PinModel.calculate_temperatures/chain'
+chain.run_kw = dict(check_div=False)
+
+
 def configs(tier):
     out = [(whole, dict(n_pin=1)), (whole, dict(n_pin=1, annular=True)), (clad_body, dict()), (gap_body, dict()),
            (fuel_body, dict()), (fuel_body, dict(annular=True)), (coolant_weights, dict(n_ring=2)),
            (coolant_weights, dict(n_ring=3)),
-           (loop_exit, dict(loop='clad')), (loop_exit, dict(loop='gap')), (loop_exit, dict(loop='fuel'))]
+           (loop_exit, dict(loop='clad')), (loop_exit, dict(loop='gap')), (loop_exit, dict(loop='fuel')), (chain, dict())]
     if tier == 'thorough':
         out += [(whole, dict(n_pin=2)), (coolant_weights, dict(n_ring=4))]
     return out
